@@ -66,6 +66,7 @@ func genDeliveryScript(r *rand.Rand, kind Kind, half bool, allowBig bool) *Scrip
 		}
 	}
 	s.MutateAfterSend = r.Intn(2) == 0
+	s.ReuseDest = r.Intn(3) == 0
 	s.RecvAfterSend = half || r.Intn(3) == 0
 	var sends []Op
 	big = allowBig
@@ -302,6 +303,27 @@ func checkC01(e *core.Env) {
 
 	// unary replies that break off in transit must never be delivered as (partial) messages
 	unaryCutPhase(e, "delivery/http", e.N(6, 60))
+
+	// a unary call that returns on cancellation before the server side has looked at the request: the caller
+	// may overwrite its message at once; whatever the handler then receives is the message that was sent
+	installHooks()
+	e.Cases("unary-early-return", e.N(60, 600), func(i int, r *rand.Rand) {
+		var inp *Carrier
+		for _, c := range cs.list {
+			if c.Inproc {
+				inp = c
+			}
+		}
+		seen, orig, placed := earlyReturnUnary(e, "C01", inp, "inproc", r)
+		if !placed {
+			return
+		}
+		e.Eval("unary-early-return", true)
+		e.Count("early_returns_placed", 1)
+		if seen != nil && !sameMsg(seen, orig) {
+			e.Violate("delivery/inproc/unary/early-return-altered", fmt.Sprintf("the call had returned (cancelled) and the caller re-used its request; the handler then received a message that was never sent: %s (sent: %s)", msgDesc(seen), msgDesc(orig)), map[string]any{"sent": msgDesc(orig), "handler_received": msgDesc(seen)})
+		}
+	})
 
 	if e.Thorough() {
 		// very large payloads
